@@ -523,6 +523,59 @@ print("ok" if not bad else "failed"); sys.exit(1 if bad else 0)
 """
 
 
+# F6: an exception whose attributes cannot be assigned (frozen dataclass) raised by a call / by a store's modified-time query
+F6_SCRIPT = """
+import sys, dataclasses, uberjob
+from uberjob import ValueStore
+@dataclasses.dataclass(frozen=True)
+class Frozen(Exception):
+    code: int = 3
+bad = []
+class Obs(uberjob.progress.ProgressObserver):
+    def __init__(self): self.ev = []
+    def __enter__(self): return self
+    def __exit__(self, *a): pass
+    def increment_total(self, *, section, scope, amount): pass
+    def increment_running(self, *, section, scope): self.ev.append(("running", section, scope))
+    def increment_completed(self, *, section, scope): self.ev.append(("completed", section, scope))
+    def increment_failed(self, *, section, scope, exception): self.ev.append(("failed", section, scope))
+class P(uberjob.progress.Progress):
+    def __init__(self, o): self.o = o
+    def observer(self): return self.o
+def check(name, run, node, raised):
+    obs = Obs()
+    try:
+        r = run(obs); bad.append((name, "run returned", r)); return
+    except uberjob.CallError as e: err = e
+    except BaseException as e: bad.append((name, "run raised", repr(e))); return
+    if err.call is not node: bad.append((name, "CallError.call is not the failed call", err.call))
+    if err.__cause__ is not raised.get("e"): bad.append((name, "__cause__ is not the exception that was raised but", repr(err.__cause__)))
+    opened = [e for e in obs.ev if e[0] == "running"]; closed = [e for e in obs.ev if e[0] in ("completed", "failed")]
+    if len(opened) != len(closed): bad.append((name, "a call reported running was never reported completed or failed", obs.ev))
+raised = {}
+def boom(): raised["e"] = Frozen(7); raise raised["e"]
+plan = uberjob.Plan(); n = plan.call(boom)
+check("call raises a frozen exception", lambda obs: uberjob.run(plan, output=n, progress=P(obs)), n, raised)
+class BadStore(ValueStore):
+    def read(self): return 1
+    def write(self, v): pass
+    def get_modified_time(self): raised["e"] = Frozen(8); raise raised["e"]
+plan2, reg = uberjob.Plan(), uberjob.Registry(); m = plan2.call(lambda: 1); reg.add(m, BadStore())
+check("modified-time query raises a frozen exception", lambda obs: uberjob.run(plan2, registry=reg, output=m, progress=P(obs)), m, raised)
+for b in bad: print("C06/C15 violated:", b)
+print("ok" if not bad else "failed"); sys.exit(1 if bad else 0)
+"""
+
+
+def _replay_f6(ob=None):
+    import os
+
+    from ujvc.z3env import REPO_SRC
+
+    p = __import__('ujvc.units', fromlist=['run_native_p']).run_native_p(["/venv/bin/python", "-c", F6_SCRIPT], env=dict(os.environ, PYTHONPATH=REPO_SRC), timeout=120)
+    return {"reproduced": p.returncode == 1, "detail": (p.stdout + p.stderr)[-2000:], "script": F6_SCRIPT}
+
+
 def _replay_nested(ob):
     import os
 
